@@ -33,3 +33,9 @@ Proof.
   - intros t w H. apply (proj1 (proj1 generate_wft_all g k c a (t, w) H)).
 Qed.
 Print Assumptions C10_traces_are_wellformed.
+
+(* ---- non-vacuity: concrete non-trivial programs and traces meeting the hypotheses above (proofs/GFIWitness.v) ---- *)
+From Proofs Require Import GFIWitness.
+Example C10_hypotheses_met : wft ex_g ex_t /\ length (t_choices ex_t) = 7%nat.
+Proof. exact (conj ex_wft ex_nontrivial). Qed.
+Print Assumptions C10_hypotheses_met.
